@@ -68,6 +68,7 @@ type StepObs struct {
 	State  string   `json:"state"`           // GetState() after the step
 	Note   string   `json:"note,omitempty"`  // recorder remarks
 	Unsure bool     `json:"unsure,omitempty"` // the recorder could not establish the wire count (watchdog)
+	Ms     int64    `json:"ms,omitempty"`     // wall time of the step incl. wire accounting (information only)
 }
 
 // HistObs is the recorded execution of one history.
